@@ -1095,6 +1095,17 @@ func (sm *StyleManager) addTOCStyles() {
 // GetStyleWithInheritance 获取具有继承属性的样式
 // 如果样式基于其他样式，会合并父样式的属性
 func (sm *StyleManager) GetStyleWithInheritance(styleID string) *Style {
+	return sm.resolveStyleWithInheritance(styleID, make(map[string]bool))
+}
+
+// resolveStyleWithInheritance 沿 basedOn 链解析样式；visited 记录已经走过的样式ID，
+// 遇到循环引用（包括样式基于自身）时把它当作不存在的基础样式处理，保证解析一定终止
+func (sm *StyleManager) resolveStyleWithInheritance(styleID string, visited map[string]bool) *Style {
+	if visited[styleID] {
+		return nil
+	}
+	visited[styleID] = true
+
 	style := sm.GetStyle(styleID)
 	if style == nil {
 		return nil
@@ -1106,7 +1117,7 @@ func (sm *StyleManager) GetStyleWithInheritance(styleID string) *Style {
 	}
 
 	// 递归获取基础样式
-	baseStyle := sm.GetStyleWithInheritance(style.BasedOn.Val)
+	baseStyle := sm.resolveStyleWithInheritance(style.BasedOn.Val, visited)
 	if baseStyle == nil {
 		return style
 	}
